@@ -30,6 +30,7 @@ import (
 	"github.com/kubewharf/kubebrain/pkg/backend/tso"
 	"github.com/kubewharf/kubebrain/pkg/metrics"
 	"github.com/kubewharf/kubebrain/pkg/storage"
+	"github.com/kubewharf/kubebrain/pkg/verifhook"
 )
 
 // retry state
@@ -159,6 +160,7 @@ func (a *asyncFifoRetryImpl) Run(ctx context.Context) {
 }
 
 func (a *asyncFifoRetryImpl) retry(ctx context.Context) (breakLoop bool) {
+	verifhook.Yield("retry.step", uint64(a.queue.size()), 0)
 
 	a.metrics.EmitGauge("async_retry.queue_size", a.queue.size())
 	node := a.queue.getHead()
@@ -237,6 +239,7 @@ func (a *asyncFifoRetryImpl) overwrite(ctx context.Context, key []byte, prevOpRe
 		return 0, nil
 	}
 	klog.InfoS("internal retry", "key", string(key), "prevRev", prevOpRev)
+	verifhook.Yield("retry.deal", prevOpRev, 0)
 	rev, err = a.tso.Deal()
 	if err != nil {
 		return rev, err
